@@ -318,3 +318,139 @@ def check_C06(tier, seed):
     rep.cov["disagreements_checked"] = agg["cex"]
     rep.assumptions += ["fmt.Printf (Debug output) is an empty stub: formatting is not the subject", "pure code blocks only (no state blocks, no throw/recover)"]
     return rep.finish()
+
+
+def triage_overlay(rep, prop, ov, hname, arg, cx, case_id, extra=None, timeout=120):
+    """Native confirmation of a counterexample of an overlay harness."""
+    model = cx.get("model") or {}
+    msg = cx.get("msg", "")
+    hang = msg.startswith("step limit")
+    nat = ov.native(hname, arg, model, timeout=10 if hang else timeout)
+    doc = {"property": prop, "family": "overlay", "case": case_id, "harness": hname, "arg": arg, "model": model, "msg": msg,
+           "input": catcheck.model_bytes(model), "tags": [], "native": {k: nat[k] for k in ("fails", "panic", "timeout", "notes")}}
+    doc.update(extra or {})
+    reproduced = bool(nat["fails"]) or (nat["panic"] is not None and msg.startswith("uncaught")) or nat["timeout"]
+    if not reproduced:
+        if hang:
+            rep.inconclusive.append("%s n=%d: engine step limit hit but the native run terminates" % (hname, arg))
+        else:
+            rep.unconfirmed.append("%s n=%d: '%s' model=%s did not reproduce natively (%s)" % (hname, arg, msg, model, nat["raw"][-300:].replace("\n", " | ")))
+        return None
+    k = match_known(prop, doc)
+    if k is not None:
+        short = "%s %s" % (k["id"], k["what"])
+        if short not in rep.known:
+            rep.known.append(short)
+        return doc
+    path = save_replay(prop, doc)
+    rep.violation(path, "%s n=%d: %s; model=%s native=%s notes=%s" % (hname, arg, msg, model, nat["fails"] or nat["panic"] or "timeout", nat["notes"]))
+    return doc
+
+
+def overlay_explore(rep, prop, ov, hre, nmin, nmax, tmo, case_id, sample_every=50, max_triage=6, args=None, **kw):
+    """Run an overlay harness; triage; cross-validate samples. Returns agg."""
+    agg = {"jobs": 0, "paths": 0, "completed": 0, "decisions": 0, "queries": 0, "solver_s": 0.0, "asserts": 0, "discharged": 0,
+           "dropped": 0, "steps": 0, "cex": 0, "validated": 0, "validated_ok": 0, "engine_wall_s": 0.0, "externals": []}
+    res = ov.engine(harness=hre, nmin=nmin, nmax=nmax, timeout_s=tmo, sample_every=sample_every, **kw)
+    if res.get("errors"):
+        rep.inconclusive.append("engine: " + "; ".join(res["errors"])[:800])
+    agg["engine_wall_s"] = res.get("wall_s", 0)
+    agg["externals"] = res.get("externals") or []
+    samples = []
+    triaged = 0
+    for j in res.get("jobs") or []:
+        if args is not None and j["arg"] not in args:
+            continue
+        hname = j["harness"].rsplit(".", 1)[1]
+        agg["jobs"] += 1
+        for a, b in (("paths", "paths"), ("completed", "completed"), ("decisions", "decisions"), ("queries", "queries"),
+                     ("assertions_checked", "asserts"), ("assertions_discharged", "discharged"), ("dropped_by_assumption", "dropped"), ("ssa_steps", "steps")):
+            agg[b] += j.get(a, 0)
+        agg["solver_s"] += j.get("solver_s", 0)
+        hang_cex = any((cx.get("msg") or "").startswith("step limit") for cx in j.get("counterexamples") or [])
+        for m in j.get("inconclusive") or []:
+            if hang_cex and m.startswith("step limit"):
+                continue
+            rep.inconclusive.append("%s n=%d: %s" % (hname, j["arg"], m))
+        if (j.get("reached") or {}).get("end", 0) == 0 and j.get("completed", 0) > 0 and not j.get("counterexamples"):
+            rep.inconclusive.append("%s n=%d: vacuous (no path reached the end marker)" % (hname, j["arg"]))
+        for s in (j.get("samples") or [])[:6]:
+            samples.append({"harness": hname, "arg": j["arg"], "model": s["model"], "notes": s.get("notes") or []})
+        for cx in j.get("counterexamples") or []:
+            agg["cex"] += 1
+            if triaged < max_triage:
+                triaged += 1
+                triage_overlay(rep, prop, ov, hname, j["arg"], cx, case_id)
+    if samples:
+        got = ov.native_batch([{"harness": s["harness"], "arg": s["arg"], "model": s["model"]} for s in samples[:60]])
+        if got is None:
+            rep.inconclusive.append("%s: native cross-validation run failed" % case_id)
+        else:
+            for s, nat in zip(samples[:60], got):
+                agg["validated"] += 1
+                if nat["fails"] or nat["panic"] or sorted(nat["notes"]) != sorted(s["notes"]):
+                    rep.unconfirmed.append("%s n=%d model=%s: engine notes %s vs native fails=%s panic=%s notes=%s" % (
+                        s["harness"], s["arg"], s["model"], s["notes"], nat["fails"], nat["panic"], nat["notes"]))
+                else:
+                    agg["validated_ok"] += 1
+        for s in samples[:4]:
+            rep.samples.append({"case": case_id, "harness": s["harness"], "n": s["arg"], "model": s["model"], "path_notes": s["notes"]})
+    return agg
+
+
+def merge_agg(a, b):
+    out = dict(a)
+    for k, v in b.items():
+        if isinstance(v, (int, float)):
+            out[k] = out.get(k, 0) + v
+        elif isinstance(v, list):
+            out[k] = sorted(set(out.get(k, []) + v))
+    return out
+
+
+def check_C07(tier, seed):
+    rep = Report("C07", tier, seed, "model_checking")
+    w = Work()
+    w.build_pigeon()
+    quick = tier == "quick"
+    # (a) analysis vs. reflr over the lazily chosen family (harness inside package builder)
+    ov = RepoOverlay(w, "builder", "builder", {"zz_verif_c07.go": open(os.path.join(VERIF, "harness", "c07a_builder.go")).read()}, ["Harness_C07a"])
+    menu = 32
+    if quick:
+        rnd = random.Random(seed)
+        pick = sorted(set([0, 1, 4, 6, 8] + rnd.sample(range(menu), 5)))
+    else:
+        pick = list(range(menu))
+    agg_a = overlay_explore(rep, "C07", ov, "Harness_C07a$", min(pick), max(pick), 300 if quick else 1200, "c07a_family",
+                            sample_every=997, args=None if not quick else None, max_steps=2_000_000)
+    # (b) consequence at run time: accepted grammars never re-enter a rule at the same offset
+    cyc = cores.cyclic_catalogue()
+    cases_b = [ref_case(g, ["C07b"]) for g in cyc]
+    acyclic = (cores.pair_core()[::6] if quick else cores.pair_core()[::2]) + cores.composites() + cores.throw_catalogue()
+    cases_ok = [ref_case(g, ["C07b"]) for g in acyclic]
+    catcheck.prepare(w, cases_b + cases_ok)
+    accepted_cyclic = [c for c in cases_b if not c.gen_errors]
+    rejected_cyclic = [c for c in cases_b if c.gen_errors]
+    for c in rejected_cyclic:
+        for rel, flags, code, err in c.gen_errors:
+            if "left recursion" not in err:
+                rep.inconclusive.append("%s: rejected for another reason: %s" % (c.id, err))
+        c.gen_errors = []  # expected outcome, not an inconclusive result
+    run_b = accepted_cyclic + [c for c in cases_ok if not c.gen_errors]
+    agg_b = catcheck.explore(w, rep, run_b, "C07", r"Harness_C07b$", 2 if quick else 3, 120, "ref", seed=seed, validate_pkgs=4,
+                             max_steps=400_000)
+    # with the flag every cyclic grammar must be accepted or rejected with the leader error, never crash
+    agg = merge_agg(agg_a, agg_b)
+    std_cov(rep, agg, cases_b + cases_ok,
+            {"family": "2 rules x 2 lazily chosen slots from a menu of 32 (4 terminals + 14 operator shapes x 2 referenced rules) + a fixed nullable rule; first slot of rule A = job argument (%d of 32 in this tier)" % len(pick),
+             "runtime_monitor": "input <= %d bytes on %d accepted grammars" % (2 if quick else 3, len(run_b)),
+             "cyclic_catalogue": "%d grammars with a first-call cycle: %d rejected without the flag, %d accepted" % (len(cyc), len(rejected_cyclic), len(accepted_cyclic))},
+            "(a) one state = one lazily completed grammar prefix (all completions of untouched slots at once), compared with the syntactic reference reflr; (b) one state = one input class of a generated parser under the re-entry monitor",
+            ["builder.PrepareGrammar", "ComputeNullables", "ComputeLeftRecursives", "MakeFirstGraph", "StronglyConnectedComponents", "findLeader", "FindCyclesInSCC",
+             "ast.*.NullableVisit / IsNullable / InitialNames", "generated parseRule* under the engine's re-entry monitor"])
+    rep.cov["solver_role"] = "(a): slot choices are engine nondeterminism (symChoose), the solver is not needed - lazy case enumeration, stated as such; (b): input bytes symbolic, solver-decided"
+    rep.cov["cyclic_grammars_accepted_without_flag"] = [c.id for c in accepted_cyclic]
+    rep.assumptions += ["(a) grammars with more than 2 symbolic rules / 2 slots per rule / operator nesting deeper than the menu are outside the claim",
+                        "repetitions whose body can match without consuming are excluded (assumed away, counted as dropped)",
+                        "reflr: syntactic nullable/first-call analysis (least fixpoint); predicates, repetition, label, action and recovery operands count as called at the current position"]
+    return rep.finish()
